@@ -107,6 +107,16 @@ func TestScaledDecimal(t *testing.T) {
 		if nt && world.WantSample() {
 			world.Sample(map[string]any{"kind": "decimal", "k": k, "d": d, "float": decimalFloat(k, d)})
 		}
+		if rapid.IntRange(0, 3).Draw(t, "earlierValueUsedAsReceiver") == 0 {
+			// a value the conversion returned earlier (same number of decimals) serves as the receiver of a decoded
+			// scaled number afterwards - the decoder writes through the pointers the value holds. What belongs to one
+			// value must not reach the conversion of another
+			earlier := model.NewScaledNumberType(decimalFloat(rapid.Int64Range(-99999, 99999).Draw(t, "earlierK")*10+1, d))
+			if err := json.Unmarshal([]byte(`{"number":7,"scale":3}`), earlier); err != nil {
+				world.Fail(t, "C19/scaled/unmarshal", "unmarshal into an earlier value: %v", err)
+			}
+			world.Label("decimal/earlier-value-used-as-receiver")
+		}
 		checkDecimal(t, k, d)
 	}))
 }
